@@ -155,6 +155,9 @@ func run(t *testing.T, tape *simrt.Tape) *hx.Outcome {
 		var relZero []relEv // releases that brought a use count to zero
 		lookupInv := map[string]uint64{}
 		faultedImage := map[int]bool{} // a lookup of this image failed while registry faults were on
+		lastFault := map[int]uint64{}  // ... and when (event sequence number)
+		imgUses := map[int]int{}       // outstanding uses per image (all layers)
+		var imgZero []relEv            // releases that brought an image's total use count to zero
 		// model: outstanding uses per (image, layer)
 		count := map[[2]int]int{}
 		layerNode := func(ii, li int, tocName string) (fusefs.InodeEmbedder, fusefs.InodeEmbedder, syscall.Errno) {
@@ -268,6 +271,7 @@ func run(t *testing.T, tape *simrt.Tape) *hx.Outcome {
 						n, errno := lookup(t, ii, li, kind)
 						if errno != 0 {
 							faultedImage[ii] = true
+							lastFault[ii] = s.Seq()
 							if calm {
 								overl := false
 								for _, r := range relZero {
@@ -303,6 +307,7 @@ func run(t *testing.T, tape *simrt.Tape) *hx.Outcome {
 						ln.(fusefs.NodeCreater).Create(ctx, "use", 0, 0, &eo)
 						count[key]++
 						mine[key]++
+						imgUses[ii]++
 						uses++
 						s.Event("%s use img%d layer%d -> %d", t.Label, ii, li, count[key])
 					default: // release one of our uses
@@ -323,6 +328,9 @@ func run(t *testing.T, tape *simrt.Tape) *hx.Outcome {
 						}
 						count[key]--
 						mine[key]--
+						if imgUses[ii]--; imgUses[ii] == 0 {
+							imgZero = append(imgZero, relEv{s.Seq(), ii})
+						}
 						releases++
 						s.Event("%s release img%d layer%d -> %d", t.Label, ii, li, count[key])
 					}
@@ -340,6 +348,9 @@ func run(t *testing.T, tape *simrt.Tape) *hx.Outcome {
 								relZero = append(relZero, relEv{s.Seq(), key[0]})
 							}
 							count[key]--
+							if imgUses[key[0]]--; imgUses[key[0]] == 0 {
+								imgZero = append(imgZero, relEv{s.Seq(), key[0]})
+							}
 							releases++
 							s.Event("%s release(final) img%d layer%d -> %d", t.Label, key[0], key[1], count[key])
 						}
@@ -364,6 +375,12 @@ func run(t *testing.T, tape *simrt.Tape) *hx.Outcome {
 			for ii, im := range images {
 				if strings.Contains(q.Path, im.repo+"/") {
 					faultedImage[ii] = true
+					if q.Seq > lastFault[ii] {
+						lastFault[ii] = q.Seq
+					}
+					if q.FaultSeq > lastFault[ii] {
+						lastFault[ii] = q.FaultSeq
+					}
 				}
 			}
 		}
@@ -372,7 +389,14 @@ func run(t *testing.T, tape *simrt.Tape) *hx.Outcome {
 			for li := range im.layers {
 				n, errno := lookup(mt, ii, li, "diff")
 				if errno != 0 {
-					s.Fail("lookup-after-release-failed", "after every use was released (faults off), looking up diff of (img%d, layer %d) failed with %v: the image is not resolved again [registry faults were injected while this image was being resolved earlier: %v]", ii, li, errno, faultedImage[ii])
+					// the store forgets a failed resolution only when the image's last use is released
+					reset := false
+					for _, r := range imgZero {
+						if r.img == ii && r.seq > lastFault[ii] {
+							reset = true
+						}
+					}
+					s.Fail("lookup-after-release-failed", "after every use was released (faults off), looking up diff of (img%d, layer %d) failed with %v: the image is not resolved again [registry faults were injected while this image was being resolved earlier: %v; the image's uses were released down to zero after the last of them: %v]", ii, li, errno, faultedImage[ii], reset)
 					return
 				}
 				if !checkDiff(mt, n, ii, li) {
